@@ -146,6 +146,10 @@ type preCand struct {
 
 func (c preCand) key() string {
 	switch {
+	case c.Arg == -3:
+		return fmt.Sprintf("pre|%s|param%d>=0", c.Fn.String(), c.K)
+	case c.Arg == -4:
+		return fmt.Sprintf("pre|%s|%s+param%d<=len(%s)", c.Fn.String(), c.F, c.K, c.G)
 	case c.Arg == -2:
 		return fmt.Sprintf("pre|%s|%s<len(%s)", c.Fn.String(), c.F, c.G)
 	case c.Arg < 0:
@@ -158,6 +162,23 @@ func (c preCand) key() string {
 func (c preCand) constraint(fb *fnBounds, recv ssa.Value, args []ssa.Value, at ssa.Instruction) constraint {
 	cls := "fld:" + c.T.String() + "." + c.F
 	fv := linVar(fmt.Sprintf("mem(%s.%s@%s)", fb.vid(recv, at), c.F, fb.versionAt(cls, at)))
+	if c.Arg == -3 || c.Arg == -4 {
+		// an integer parameter: non-negative / the cursor plus it stays within the buffer
+		var pl lin
+		okP := false
+		if int(c.K) < len(args) {
+			pl, okP = fb.linOf(args[c.K], at, 0)
+		}
+		if !okP {
+			return constraint{linConst(-1), c.key() + " (argument not linear)"} // unsatisfiable: the candidate is dropped
+		}
+		if c.Arg == -3 {
+			return geq(pl, linConst(0), c.key())
+		}
+		clsG := "fld:" + c.T.String() + "." + c.G
+		gl := linVar(fmt.Sprintf("len:mem(%s.%s@%s)", fb.vid(recv, at), c.G, fb.versionAt(clsG, at)))
+		return geq(gl, fv.add(pl), c.key())
+	}
 	if c.Arg == -2 {
 		clsG := "fld:" + c.T.String() + "." + c.G
 		gl := linVar(fmt.Sprintf("len:mem(%s.%s@%s)", fb.vid(recv, at), c.G, fb.versionAt(clsG, at)))
@@ -258,6 +279,27 @@ func (bp *boundsProver) preCandidates(fn *ssa.Function) []preCand {
 			}
 			if !dup {
 				out = append(out, c)
+			}
+		}
+	}
+	// an integer parameter added to a cursor field (advance(n)): n ≥ 0 and cursor + n ≤ len(buffer)
+	for pi, prm := range fn.Params {
+		if pi == 0 || !isIntType(prm.Type()) {
+			continue
+		}
+		used := false
+		for _, ref := range *prm.Referrers() {
+			if bo, ok := ref.(*ssa.BinOp); ok && bo.Op == token.ADD {
+				used = true
+			}
+		}
+		if !used {
+			continue
+		}
+		out = append(out, preCand{Fn: fn, T: T, Arg: -3, K: int64(pi)})
+		for _, ic := range bp.invCandidates(T) {
+			if ic.G != "" && ic.GIsStr {
+				out = append(out, preCand{Fn: fn, T: T, F: ic.F, Arg: -4, K: int64(pi), G: ic.G})
 			}
 		}
 	}
@@ -811,6 +853,14 @@ func (fb *fnBounds) inferPhiInvariants() {
 				case *ssa.Call:
 					if bi, ok := c.Call.Value.(*ssa.Builtin); ok && bi.Name() == "len" {
 						addOther(fb.lenOf(c.Call.Args[0], c, 0), "len("+describe(c.Call.Args[0])+")")
+					} else if isStringType(c.Type()) || kindOf(c.Type()) == KSlice {
+						// a string / slice obtained before the loop (rest := exp.rest()): its length bounds
+						// counters that scan it
+						addOther(fb.lenOf(c, c, 0), "len("+describe(c)+")")
+					}
+				case *ssa.Slice:
+					if isStringType(c.Type()) || kindOf(c.Type()) == KSlice {
+						addOther(fb.lenOf(c, c, 0), "len("+describe(c)+")")
 					}
 				case *ssa.BinOp:
 					if isIntType(c.Type()) && (c.Op == token.ADD || c.Op == token.SUB) {
@@ -1289,7 +1339,6 @@ func hasBoundsObligation(fn *ssa.Function) bool {
 	}
 	return false
 }
-
 
 // writtenThroughBasesOnly: every store to a field of T in the module goes through a parameter or a local
 // allocation of the storing function (never through a pointer loaded from elsewhere, a free variable or a
